@@ -56,6 +56,7 @@ func vfRunBacklog(c *vfBacklogCase) (st vfBacklogStats, sig, msg string) {
 	var applied atomic.Int64
 	var mu sync.Mutex
 	evicted := map[uint64]int{}
+	rejected := map[uint64]int{}
 	cache, err := NewCache(&Config[uint64, uint64]{NumCounters: 1000, MaxCost: 1 << 30, BufferItems: 64, IgnoreInternalCost: true,
 		TtlTickerDurationInSec: int64(c.TickerSec), Metrics: c.Metrics,
 		Cost: func(v uint64) int64 {
@@ -66,6 +67,12 @@ func vfRunBacklog(c *vfBacklogCase) (st vfBacklogStats, sig, msg string) {
 		OnEvict: func(it *Item[uint64]) {
 			mu.Lock()
 			evicted[it.Value]++
+			mu.Unlock()
+		},
+		// an insert that the cache turns away (for whatever reason) never became an entry: it is settled too
+		OnReject: func(it *Item[uint64]) {
+			mu.Lock()
+			rejected[it.Value]++
 			mu.Unlock()
 		},
 	})
@@ -115,7 +122,7 @@ func vfRunBacklog(c *vfBacklogCase) (st vfBacklogStats, sig, msg string) {
 		defer mu.Unlock()
 		n := 0
 		for i := 0; i < c.TTLEntries; i++ {
-			n += evicted[base+uint64(i)]
+			n += evicted[base+uint64(i)] + rejected[base+uint64(i)]
 		}
 		return n
 	}
